@@ -19,15 +19,15 @@ Definition run_req_run (a : args) : args :=
   let B := argn a 0 in let maxc := argn a 1 in let wire := arg a 2 in let sched := arg a 3 in
   let p0 := new_parser B in
   match run_schedule norm_impl maxc p0 wire sched with
-  | SPanic => [[888888]]
+  | SPanic => [[18446744073710440504]]
   | SFuel => [[888887]]
   | SOk p done unfed out =>
     let again :=
       match parse norm_impl maxc p [] with
-      | PPanic _ => [[888888]]
+      | PPanic _ => [[18446744073710440504]]
       | POk p1 d1 o1 =>
         match parse norm_impl maxc p1 [] with
-        | PPanic _ => [[888888]]
+        | PPanic _ => [[18446744073710440504]]
         | POk p2 d2 o2 => [[if d1 then 1 else 0; len o1; if d2 then 1 else 0; len o2; input_space p2]]
         end
       end in
